@@ -8,6 +8,8 @@ from . import core
 
 
 def main():
+    import logging
+    logging.disable(logging.CRITICAL)      # xfab's loggers would interleave with the verdict lines
     ap = argparse.ArgumentParser()
     ap.add_argument('pid')
     ap.add_argument('--tier', default=os.environ.get('VERIF_TIER', 'quick'), choices=['quick', 'thorough'])
